@@ -8,7 +8,7 @@ PROP = dict(
     lean_module="AbraProofs.Properties.C31",
     required_theorems=["C31_doc_table_matches_code", "C31_parser_total", "C31_parse_print_prefix", "C31_parse_print",
                        "C31_neg_literal_uniform", "C31_neg_literal_examples", "C31_fold_breaks_table",
-                       "C31_code_is_uniform"],
+                       "C31_code_agrees_with_reference"],
     harness_bin="c31",
     # the model's answer on malformed token lists (err/partial) is more than the property fixes; a
     # violation of the property itself is found by the harness's own oracle (tree vs. parser, value vs.
@@ -40,8 +40,9 @@ PROP = dict(
                "where printMinimal parenthesises by the documented table only; atoms (literal vs variable) never influence grouping. "
                "Tied to /repo on every run by parsing printed random trees with the real lexer+parser, comparing with the tree and "
                "with the model, and evaluating them in the real VM against a reference evaluator on the tree.",
-    level_note="The model is the repaired parser (D11: `-<literal>` is an ordinary prefix minus); until that fix lands in /repo the check "
-               "reports the `-2 % 3` family as violations. Step from parse.rs to Abra.Pratt is checked by correspondence, not proved.",
+    level_note="The model follows the parser after the fix of D11 (46f8617: `-<literal>` stays a literal only when no tighter operator "
+               "follows); the pre-fix treatment is kept as FoldMode.always with a proved counterexample. Step from parse.rs to "
+               "Abra.Pratt is checked by correspondence, not proved.",
     technique="Lean 4 theorems (mutual structural induction over trees, fuel monotonicity) over a hand-written Pratt model + differential correspondence against the real parser and VM",
     timeout=3000,
 )
